@@ -76,7 +76,6 @@ theorem simD_sends {val : Val} {voters : List Id} {n : Nat} {s : Spec.State} {a 
       id := by rw [sf.cfg]; exact hi.st.id
       idnz := hi.st.idnz
       pv := by rw [sf.cfg]; exact hi.st.pv
-      cq := by rw [sf.cfg]; exact hi.st.cq
       xfer := sf.leadTransferee.trans hi.st.xfer
       pri := sf.pendingReadIndexMessages.trans hi.st.pri
       ro := by rw [sf.readOnly]; exact hi.st.ro
